@@ -561,7 +561,7 @@ func (r *R) Explore(cfg Config) {
 								next = append(next, node{seq})
 								nmu.Unlock()
 							}
-							if r.states.Load()%997 == 1 {
+							if n := r.states.Load(); n <= 4 || n%997 == 1 {
 								r.Sample(map[string]any{"explore": cfg.Name, "ops": names(cfg.Ops, seq)})
 							}
 						}
